@@ -232,13 +232,17 @@ def impl_export_model(case):
     return {"pkg": pj, "hmods": [mods[m["name"]] for m in pj["modules"]]}
 
 
+def _c11():
+    return __import__("props.c11", fromlist=["x"])
+
+
 def export_model_stream(ctx, cases):
     """(C06, module level) `EWF` on what elaboration left behind (the hypothesis of `export_module_wf`), and the model's
     `exportModule` of it against the module the real exporter wrote."""
     rep = ctx.rep
     impls = common.pmap(impl_export_model, cases, chunk=8)
     idx = [k for k, im in enumerate(impls) if "hmods" in im]
-    outs = dict(zip(idx, ctx.drv.run([{"prop": "EWF", "op": "ewf", "pkg": impls[k]["pkg"], "hmods": impls[k]["hmods"]} for k in idx])))
+    outs = dict(zip(idx, ctx.drv.run([{"prop": "EWF", "op": "ewf", "pkg": impls[k]["pkg"], "hmods": impls[k]["hmods"], "ports_first": _c11().ports_first()} for k in idx])))
     for k, (c, im) in enumerate(zip(cases, impls)):
         rep.count("export_model", json.dumps(c["design"])[:4000], nontrivial="hmods" in im)
         case = {"stream": "export_model", "case": c}
